@@ -280,7 +280,8 @@ pub fn worker(args: &[String]) {
     let quick = tier == "quick";
     let mut letters = vec![];
     for k in ["a", "bb"] {
-        for v in if quick { vec!["1", "é"] } else { vec!["1", "é", ""] } {
+        // quick: the non-ASCII value on one key, the empty value on the other (same alphabet size)
+        for v in if quick { if k == "a" { vec!["1", "é"] } else { vec!["1", ""] } } else { vec!["1", "é", ""] } {
             letters.push(L::Set(k, v));
         }
         letters.push(L::Remove(k));
